@@ -132,6 +132,16 @@ Definition http_put (c : fcfg) (d : dstate) (url_ok : bool) (hash : string) (cl 
       end
   end.
 
+(* HTTP PUT /ac/<hash> with AC validation on: the body is read, decoded, validated and re-marshalled
+   (oracle: [valid], the length [arlen] of what is stored), then Put under the AC key space *)
+Definition http_put_ac (c : fcfg) (d : dstate) (hash : string) (cl : Z) (valid : bool) (arlen : Z) (rnd : string)
+  : dstate * status :=
+  if cl =? -1 then (d, bad) else
+  if cl >? fc_http_max c then (d, bad) else
+  if negb valid then (d, bad) else
+  let '(d', r) := disk_put c d AC hash arlen (mkStream 0 arlen false true arlen) rnd in
+  (d', match r with None => SOk | Some e => SErr e end).
+
 (* ================= write path 3/4: BatchUpdateBlobs ================= *)
 
 Inductive comp := CIdentity | CZstd | COther (n : Z).
@@ -554,7 +564,12 @@ Inductive fop :=
 | FGetTree (root : string * Z) (table : list (Z * list (string * Z)))
 | FFindMissing (ds : list (string * Z))
 | FCaps
-| FRestart (zstd : bool).   (* the server is stopped and started again on the SAME directory with this --storage_mode *)
+| FRestart (zstd : bool)
+| FHttpPutAC (hash : string) (cl : Z) (valid : bool) (arlen : Z) (rnd : string)
+| FInit (max_size hard_limit : Z)   (* the case runs on a cache of this size / max_size_hard_limit (from empty) *)
+| FDrain                            (* the background remover deletes everything queued for deletion *)
+| FStats                            (* Stats() and the deletion backlog *)
+| FGetAR (hash : string).           (* GetActionResult of an entry that references no blobs: one Get under ac/ *)   (* the server is stopped and started again on the SAME directory with this --storage_mode *)
 
 Inductive fobs :=
 | OSt (s : status)
@@ -565,7 +580,8 @@ Inductive fobs :=
 | OHead (s : status) (sz : Z)
 | OTree (s : status) (cids : list Z)
 | OMiss (l : list (string * Z))
-| OCap (n : Z).
+| OCap (n : Z)
+| OStats (cur res items queued : Z).
 
 Definition run_op (c : fcfg) (d : dstate) (o : fop) : dstate * fobs :=
   match o with
@@ -584,6 +600,15 @@ Definition run_op (c : fcfg) (d : dstate) (o : fop) : dstate * fobs :=
                        (d', match s with SOk => OMiss l | _ => OSt s end)
   | FCaps => (d, OCap (capabilities_max c))
   | FRestart _ => (d, OSt SOk)
+  | FHttpPutAC h cl v n rnd => let '(d', s) := http_put_ac c d h cl v n rnd in (d', OSt s)
+  | FInit mx hd => (dinit mx hd, OSt SOk)
+  | FDrain => (drain_all (List.length (evq (lru d))) d, OSt SOk)
+  | FGetAR h => match disk_get c d AC h (-1) 0 false with
+                | (d', GHit _ _) => (d', OSt SOk)
+                | (d', GMiss) => (d', OSt (SErr ENotFound))
+                | (d', GErr e) => (d', OSt (SErr (grpc_code e EInternal)))
+                end
+  | FStats => (d, OStats (cur (lru d)) (res (lru d)) (Z.of_nat (List.length (order (lru d)))) (qbytes (lru d)))
   end.
 
 (* the same configuration under another storage mode *)
@@ -623,6 +648,7 @@ Definition obs_match (m o : fobs) : bool :=
   | OTree a la, OTree b lb => status_match a b && list_eqb Z.eqb la lb
   | OMiss a, OMiss b => list_eqb pair_eqb a b
   | OCap a, OCap b => a =? b
+  | OStats a1 a2 a3 a4, OStats b1 b2 b3 b4 => (a1 =? b1) && (a2 =? b2) && (a3 =? b3) && (a4 =? b4)
   | _, _ => false
   end.
 
